@@ -46,6 +46,7 @@ def special_scenarios(ctx):
     reps = 2 if ctx.tier == 'quick' else 12
     todo = [(i, ['names', 'resize', 'symlink-root', 'symlink-root-slash'][i % 4], None) for i in range(reps * 4)]
     todo += [(reps * 4 + 100 + j, kind_, None) for j, kind_ in enumerate(['short-reads', 'replaced'] * (1 if ctx.tier == 'quick' else 4))]
+    todo += [(reps * 4 + 200 + j, kind_, None) for j, kind_ in enumerate(['symlink-root-nonutf8', 'before-repoints', 'killed-run'] * (1 if ctx.tier == 'quick' else 3))]
     todo += [(reps * 4 + j, 'read-fault', (size, k)) for j, (size, k) in enumerate(
         (size, k) for size in ([1000, 20000] if ctx.tier == 'quick' else [1, 1000, 4096, 20000, 70000]) for k in range(1, 7 if size <= 4096 else 12))]
     for i, kind, param in todo:
@@ -58,6 +59,7 @@ def special_scenarios(ctx):
             w.write(os.path.join(it, 'sub', 'ok2'), 2, rng.choice([1, 4096, 70000]))
             w.write(os.path.join(it, 'sub', 'dup'), 1, 10)
             cfg_path, shim_env, expect_err = it, None, False
+            before_cmd, roots_override = None, None
             if kind == 'names':
                 for nm in rng.sample([b'report.txt\n', b'a\rb', b'tail\r', b'mid\nx', b'\nlead'], 3):
                     open(os.path.join(os.fsencode(it), nm), 'wb').write(b'unrepresentable name')
@@ -89,13 +91,51 @@ def special_scenarios(ctx):
                 w.write(victim, 3, size)
                 w.write(os.path.join(it, 'sub', 'zz-after'), 4, 300)
                 shim_env = {'FAULT': 'read@%s=EIO@%d' % (os.path.realpath(victim), k), 'WATCH': os.path.realpath(it)}
+            elif kind == 'symlink-root-nonutf8':
+                # the configured path is an ASCII symbolic link, the directory it resolves to has a name that is not UTF-8:
+                # such paths cannot be written into the manifest - and must not be written there in some other spelling
+                nb = os.fsencode(w.base) + b'/Gesch\xe4ft'
+                os.rename(os.fsencode(it), nb)
+                link = os.path.join(w.base, 'link-to-item')
+                os.symlink(nb, os.fsencode(link))
+                cfg_path, expect_err = link, True
+                roots_override = [os.fsdecode(os.path.realpath(nb))]
+            elif kind == 'before-repoints':
+                # the configured path is a symbolic link which the item's `before` hook points at the next snapshot
+                import shutil
+                snap2 = os.path.join(w.base, 'snap-2')
+                shutil.copytree(it, snap2, symlinks=True)
+                w.write(os.path.join(snap2, 'only-in-2'), 9, 50)
+                link = os.path.join(w.base, 'current')
+                os.symlink(it, link)
+                cfg_path = link
+                before_cmd = 'ln -sfn %s %s' % (snap2, link)
+                roots_override = [os.path.realpath(snap2)]
+            elif kind == 'killed-run':
+                # a complete backup, then a run that is killed before it archives anything
+                store.write_config(w.cfg, 'b', w.root, [{'path': it}], 2, 3)
+                w.now += 10
+                r0 = store.run_vsb(ctx, ['-c', w.cfg, 'backup', 'b'], now=w.now)
+                before_cmd = 'kill -KILL $PPID'
             else:
                 link = os.path.join(w.base, 'link-to-item')
                 os.symlink(it, link)
                 cfg_path = link + ('/' if kind.endswith('slash') else '')
-            store.write_config(w.cfg, 'b', w.root, [{'path': cfg_path}], 2, 2)
+            store.write_config(w.cfg, 'b', w.root, [dict({'path': cfg_path}, **({'before': before_cmd} if before_cmd else {}))], 2, 3 if kind == 'killed-run' else 2)
             w.now += 10
             r = store.run_vsb(ctx, ['-c', w.cfg, 'backup', 'b'], now=w.now, shim_env=shim_env)
+            if kind == 'killed-run':
+                # every final-named backup directory of the storage decodes, whatever happened to the run that was killed
+                nfinal = 0
+                for g_ in sorted(os.listdir(w.root)):
+                    for b_ in sorted(os.listdir(os.path.join(w.root, g_))):
+                        if store.BACKUP_RE.match(b_):
+                            nfinal += 1
+                            why_ = decode_check(os.path.join(w.root, g_, b_), [os.path.realpath(it)])
+                            if why_:
+                                ctx.violation('property', 'after a run was killed, the final-named backup %s/%s does not decode: %s' % (g_, b_, why_), {'case': {'scenario': kind, 'index': i}})
+                done.append((kind, 'ok' if nfinal >= 1 and r.rc != 0 else 'not-killed'))
+                continue
             case = {'scenario': kind, 'index': i, 'action': (shim_env or {}).get('ACTION') or (shim_env or {}).get('FAULT')}
             bdir = os.path.join(w.root, store.group_name(w.now), store.backup_name(w.now))
             if not os.path.isdir(bdir):
@@ -103,7 +143,7 @@ def special_scenarios(ctx):
                     ctx.violation('property', 'special scenario %s: nothing published (exit %d, %s)' % (kind, r.rc, r.errors()[:2]), {'case': case})
                 done.append((kind, 'unpublished'))
                 continue
-            why = decode_check(bdir, [os.path.realpath(it)])
+            why = decode_check(bdir, roots_override or [os.path.realpath(it)])
             if not why and kind in ('short-reads', 'replaced'):
                 # truthful with respect to the (now static) source file
                 import hashlib
@@ -131,8 +171,12 @@ def special_scenarios(ctx):
                 if any('\r' in p or '\n' in p for p in recs):
                     ctx.violation('property', 'a CR/LF path was written into the manifest', {'case': case})
             if kind not in ('resize', 'read-fault', 'short-reads', 'replaced') and not why:
-                want = {os.path.join(os.path.realpath(it), x) for x in ('ok one', 'sub/ok2', 'sub/dup')}
-                if set(recs) != want and not (kind == 'names' and set(recs) >= want):
+                want = {os.path.join((roots_override or [os.path.realpath(it)])[0], x) for x in ('ok one', 'sub/ok2', 'sub/dup') + (('only-in-2',) if kind == 'before-repoints' else ())}
+                if kind == 'symlink-root-nonutf8':
+                    # (nothing below such a root can be recorded: the files are reported and left out, archive and manifest alike)
+                    if r.rc == 0:
+                        ctx.violation('property', 'paths that are not UTF-8 cannot be written into the manifest, yet the run exits 0', {'case': case})
+                elif set(recs) != want and not (kind == 'names' and set(recs) >= want):
                     ctx.violation('property', 'special scenario %s: manifest paths %s differ from the symlink-resolved source paths %s' % (kind, sorted(recs), sorted(want)),
                                   {'case': case, 'rc': r.rc})
             done.append((kind, 'ok' if not why else 'bad'))
